@@ -6,7 +6,7 @@ From IT Require Import Runtime.Actor.
 
 (* the probe actor: state = log hash, every method returns the state it saw; argument 999 makes it panic *)
 Definition sem0 (k : nat) (a : nat) (vs : list nat) : option (nat * nat) :=
-  if existsb (Nat.eqb 999) vs then None else Some (a * 31 + k * 7 + fold_right plus 0 vs + 1, a).
+  if existsb (Nat.eqb 999) vs then None else Some ((a * 7 + k * 3 + fold_right plus 0 vs + 1) mod 1009, a).
 Definition sem_slf0 (k : nat) (a : nat) (vs : list nat) : nat := a.
 Definition run0 := @run nat nat sem0 sem_slf0 0.
 Definition st0 := @st nat nat.
@@ -21,7 +21,7 @@ Definition burst (m : rmodel) (k n : nat) : st0 :=
 Definition returned_count (s : st0) : nat :=
   length (filter (fun c => match c_rets c with [] => false | _ => true end) (clients s)).
 Definition is_void (m : rmodel) (k : nat) : bool := match nth_error (r_meths m) k with Some rm => negb (rm_reply rm) | None => false end.
-Definition callee_ok (m : rmodel) (k : nat) : bool := match nth_error (r_meths m) k with Some rm => rm_callee rm <? 999 | None => false end.
+Definition callee_ok (m : rmodel) (k : nat) : bool := match nth_error (r_meths m) k with Some rm => rm_msg rm | None => false end.
 Definition messaging (m : rmodel) : list nat := filter (callee_ok m) (seq 0 (length (r_meths m))).
 
 (* C08 monitor against the capacity the *option* asks for: returns the offending method and observation *)
@@ -33,3 +33,70 @@ Definition c08_search (m : rmodel) (want : option nat) : list (nat * nat * nat *
                | Some n => (n <? length (queue s)) || negb (Nat.eqb (length (lost s)) 0)
                | None => negb (Nat.eqb (length (queue s)) (n + 3)) || negb (Nat.eqb (length (lost s)) 0) end in
     if bad then [(k, length (queue s), length (lost s), returned_count s)] else []) (messaging m).
+
+(* ---- mixed scenario: two clients, each calling every messaging method once with distinct, position-tagged arguments ---- *)
+Definition arity (m : rmodel) (k : nat) : nat := match nth_error (r_meths m) k with Some rm => length (rm_args rm) | None => 0 end.
+Definition tagged (who k n : nat) : list nat := map (fun p => 100 * (who + 1) + 10 * k + p + 1) (seq 0 n).
+Definition mixed_progs (m : rmodel) : list (list (@op nat) * nat) :=
+  map (fun who => (map (fun k => Call k (tagged who k (arity m k))) (messaging m), 1)) [0; 1].
+Fixpoint fair (rounds : nat) : list choice :=
+  match rounds with 0 => [] | S r => [Cl 0; Ac; Cl 1; Ac; Ac] ++ fair r end.
+Definition mixed (m : rmodel) : st0 := run0 m 0 (mixed_progs m) (fair (4 * length (messaging m) + 6)).
+
+Definition nat_list_eqb (a b : list nat) : bool := (length a =? length b) && forallb (fun p => fst p =? snd p) (combine a b).
+Definition find_issued (s : st0) (c : callid) : option (nat * list nat) :=
+  match filter (fun e => callid_eqb (fst (fst e)) c) (issued s) with e :: _ => Some (snd (fst e), snd e) | [] => None end.
+Definition find_applied (s : st0) (c : callid) : option nat :=
+  match filter (fun e => callid_eqb (fst (fst (fst e))) c) (applied s) with e :: _ => Some (snd e) | [] => None end.
+
+(* C01/C03/C07 monitor: (what, client, seq) for each anomaly *)
+Definition c03_search (m : rmodel) : list (nat * nat * nat) :=
+  let s := mixed m in
+  (* executed with another method or other argument values *)
+  flat_map (fun e => match e with (c, callee, args, _) =>
+      match find_issued s c with
+      | Some (k, vs) => if (callee =? k) && nat_list_eqb args vs then [] else [(1, fst c, snd c)]
+      | None => [(2, fst c, snd c)] end end) (applied s)
+  (* issued but never executed although the actor is alive and everything was scheduled *)
+  ++ flat_map (fun e => let c := fst (fst e) in
+        if alive s && negb (existsb (callid_eqb c) (applied_ids s)) then [(3, fst c, snd c)] else []) (issued s)
+  (* executed twice *)
+  ++ flat_map (fun c => if 1 <? length (filter (callid_eqb c) (applied_ids s)) then [(4, fst c, snd c)] else []) (applied_ids s)
+  (* a returned value that is not the result of that call *)
+  ++ flat_map (fun cl => flat_map (fun r => match r with
+        | (c, Returned v) => match find_applied s c with Some v' => if v =? v' then [] else [(5, fst c, snd c)] | None => [(6, fst c, snd c)] end
+        | (c, Panicked) => [(7, fst c, snd c)]
+        | _ => [] end) (c_rets cl)) (clients s).
+
+(* C02 monitor: a call whose handle method returned while the actor is alive must already be in the channel, and the
+   execution order of each client's calls must be its issue order *)
+Definition c02_search (m : rmodel) : list (nat * nat * nat) :=
+  let s := mixed m in
+  flat_map (fun ev => match ev with
+      | ERet c => if alive s && negb (existsb (callid_eqb c) (enq s)) then [(1, fst c, snd c)] else []
+      | _ => [] end) (hist s)
+  ++ flat_map (fun who =>
+        let mine := filter (fun c => fst c =? who) (applied_ids s) in
+        if nat_list_eqb (map snd mine) (seq 0 (length mine)) then [] else [(2, who, 0)]) [0; 1].
+
+(* C20 monitor: client 0 makes the first messaging method panic (argument 999); afterwards clients 1 and 2 call every
+   method; anomalies: a completed call that was neither executed nor panicked (silently discarded / fabricated value),
+   or a caller still inside a call at the end although the actor is dead *)
+Definition fault_progs (m : rmodel) : list (list (@op nat) * nat) :=
+  match messaging m with
+  | [] => []
+  | k0 :: _ => ([Call k0 (repeat 999 (Nat.max 1 (arity m k0)))], 1)
+               :: map (fun who => (map (fun k => Call k (tagged who k (arity m k))) (messaging m), 1)) [1; 2]
+  end.
+Fixpoint fair3 (rounds : nat) : list choice :=
+  match rounds with 0 => [] | S r => [Cl 1; Cl 2; Ac] ++ fair3 r end.
+Definition faulted (m : rmodel) : st0 :=
+  run0 m 0 (fault_progs m) ([Cl 0; Cl 0; Ac; Ac; Ac] ++ fair3 (4 * length (messaging m) + 6)).
+Definition c20_search (m : rmodel) : list (nat * nat * nat) :=
+  let s := faulted m in
+  if alive s then [(0, 0, 0)] else
+  flat_map (fun cl => flat_map (fun r => match r with
+        | (c, RetUnit) => if existsb (callid_eqb c) (applied_ids s) then [] else [(1, fst c, snd c)]
+        | (c, Returned v) => match find_applied s c with Some v' => if v =? v' then [] else [(2, fst c, snd c)] | None => [(2, fst c, snd c)] end
+        | _ => [] end) (c_rets cl)) (clients s)
+  ++ flat_map (fun tc => match c_pc (snd tc) with Ready | Dead => [] | _ => [(3, fst tc, 0)] end) (combine (seq 0 3) (clients s)).
